@@ -16,7 +16,7 @@ def run_case(case):
         ns = {}
         if cd["init"] is not None:
             def make_init(i=i, script=cd["init"]):
-                def __init__(self):
+                def __init__(self, x=None):
                     events.append(["init", i, getattr(self, "_stage", 0)])
                     for a in script:
                         if a[0] == "super":
@@ -25,6 +25,12 @@ def run_case(case):
                             object.__setattr__(self, "_stage", a[1])
                 return __init__
             ns["__init__"] = make_init()
+        if case.get("new_at") == i:
+            def make_new(i=i):
+                def __new__(cls, x=None):
+                    return super(classes[i], cls).__new__(cls)
+                return __new__
+            ns["__new__"] = make_new()
         base = classes[i - 1] if i else icontract.DBC
         cls = type("L%d" % i, (base,), ns)
         for cid in cd["invs"]:
@@ -38,7 +44,10 @@ def run_case(case):
             cls = icontract.invariant(make_inv())(cls)
         classes.append(cls)
     try:
-        classes[case["k"]]()
+        if case.get("new_at") is not None and case["new_at"] <= case["k"]:
+            classes[case["k"]](7)
+        else:
+            classes[case["k"]]()
         out = ["ok"]
     except icontract.ViolationError as err:
         import re
